@@ -60,6 +60,7 @@ var c01KindName = []string{"recent", "recent-late", "historic", "spare", "too-ol
 type c01Req struct {
 	kind  int
 	delay time.Duration // virtual sleep before sending
+	pause time.Duration // the whole aggregator process is frozen for this long first (missed ticks)
 }
 
 type c01AggScenario struct {
@@ -80,6 +81,11 @@ func c01AggScenarios(thorough bool) []c01AggScenario {
 		{name: "insert failures: recent and historic", replica: 1, inserter: 1, fails: true, agents: [][]c01Req{{R(c01Recent, 0), R(c01Recent, 3 * s)}, {R(c01Historic, 0)}}},
 		{name: "insert failures: two inserters", replica: 2, inserter: 2, fails: true, agents: [][]c01Req{{R(c01Recent, 0), R(c01Historic, s)}, {R(c01Recent, 2 * s), R(c01Spare, 0)}}},
 	}
+	P := func(kind int, d, pause time.Duration) c01Req { return c01Req{kind: kind, delay: d, pause: pause} }
+	out = append(out,
+		c01AggScenario{name: "ticker misses 8 s then recent and historic", replica: 1, inserter: 1, agents: [][]c01Req{{R(c01Recent, 0), P(c01Recent, s, 8*s), R(c01Recent, 3*s)}, {R(c01Historic, 12*s)}}},
+		c01AggScenario{name: "ticker misses 3 s twice", replica: 2, inserter: 1, agents: [][]c01Req{{P(c01Recent, 0, 3*s), P(c01Recent, s, 3*s), R(c01Recent, 2*s)}, {R(c01RecentLate, 9*s)}}},
+	)
 	if thorough {
 		out = append(out,
 			c01AggScenario{name: "three agents", replica: 1, inserter: 2, fails: true, agents: [][]c01Req{{R(c01Recent, 0), R(c01Historic, s)}, {R(c01Recent, 0), R(c01RecentLate, 0)}, {R(c01Historic, 0), R(c01Recent, 3 * s)}}},
@@ -326,6 +332,11 @@ func c01AggRun(x *mc.Exec, sc c01AggScenario, rep *mc.Report) mc.Verdict {
 						vtime.Sleep(rq.delay)
 					} else {
 						vsched.Point("send")
+					}
+					if rq.pause > 0 {
+						// process pause / clock step: the ticker misses ticks, then catches up
+						vsched.Active().JumpClock(rq.pause)
+						vtime.Sleep(1500 * time.Millisecond)
 					}
 					nextID++
 					c01Send(w, a, sc, nextID, rq.kind, ai)
